@@ -160,7 +160,7 @@ def run(tier):
                  "parse() is called with %s, expected (text, allow_substvar=%s)" % (sorted(map(str, set(mod.parsed))), want_sub[1]), f["sp"])
         n_ok = n_err = 0
         for ctl, v, s in outs:
-            err = bool(s.mon.get("err"))
+            err = bool(s.mon.get("err_parse", s.mon.get("err")))     # errors recorded by parse() itself
             if ctl == PANIC:
                 C.ob("C09/O-bump", "%s: panic reachable %s" % (short, str(v)[:120]), False, "a panic is reachable on some token sequence: %s" % (v,))
                 continue
